@@ -303,6 +303,52 @@ func main() {
 		}
 		d.Stop()
 	}
+	// 10. pending limits: a message that would take a subscription over its limits is dropped (slow consumer); the one
+	// being handled does not count as pending
+	{
+		nc, _ := nats.Connect(e.URL())
+		pub, _ := nats.Connect(e.URL())
+		release := make(chan struct{})
+		started := make(chan struct{}, 10)
+		var mu sync.Mutex
+		var got []string
+		sub, _ := nc.Subscribe("l.x", func(m *nats.Msg) {
+			started <- struct{}{}
+			<-release
+			mu.Lock()
+			got = append(got, string(m.Data))
+			mu.Unlock()
+		})
+		errLim := sub.SetPendingLimits(2, 1024)
+		_ = nc.Flush()
+		time.Sleep(wait)
+		_ = pub.Publish("l.x", []byte("0"))
+		_ = pub.Flush()
+		<-started
+		for i := 1; i < 6; i++ {
+			_ = pub.Publish("l.x", []byte(fmt.Sprint(i)))
+		}
+		_ = pub.Flush()
+		time.Sleep(wait)
+		close(release)
+		time.Sleep(2 * wait)
+		_ = pub.Publish("l.x", []byte("big:"+strings.Repeat("x", 2000))) // over the byte limit on its own
+		_ = pub.Publish("l.x", []byte("after"))
+		_ = pub.Flush()
+		time.Sleep(2 * wait)
+		mu.Lock()
+		var short []string
+		for _, g := range got {
+			if len(g) > 8 {
+				g = g[:4] + "…"
+			}
+			short = append(short, g)
+		}
+		obs["10-pending-limits"] = fmt.Sprintf("set=%s delivered=%v zeroArg=%s", errClass(errLim), short, errClass(sub.SetPendingLimits(0, 10)))
+		mu.Unlock()
+		nc.Close()
+		pub.Close()
+	}
 	e.Stop()
 	b, _ := json.MarshalIndent(obs, "", " ")
 	fmt.Println(string(b))
